@@ -304,7 +304,9 @@ def values_spec(draw):
     m = 2 if gen.is_quad(kind) else draw(st.sampled_from([2, 3, 4]))
     terms = draw(_terms_strategy(labels, m, spin, draw(_REPEATS), "mixed", 6))
     return {"spin": spin, "labels": list(labels), "kind": kind, "terms": terms, "build": draw(_BUILD),
-            "ctype": draw(gen.CTYPE)}
+            "ctype": draw(gen.CTYPE),
+            # exact big integers (beyond 2^53, low bit set): evaluation must be exact integer arithmetic
+            "bigint": draw(gen.pick((False, 5), (True, 1)))}
 
 
 # ---------------------------------------------------------------------------
@@ -1034,10 +1036,17 @@ def run_values(spec, rec):
         warnings.simplefilter("ignore")
         spin, labels, kind = bool(spec["spin"]), list(spec["labels"]), spec["kind"]
         terms = [(tuple(k), v) for k, v in spec["terms"]]
-        tab = table_list(terms, labels, spin)
-        scale = float(sum(abs(v) for _, v in terms))
         classes = {kind, "spin" if spin else "boolean"}
         ctype = spec.get("ctype") or "plain"
+        if spec.get("bigint"):
+            terms = [(k, int(v * 8) * 2 ** 57 + 1) for k, v in terms]
+            d_exact = gen.terms_dict(terms)
+            tab = [ref.ref_value(d_exact, ref.assignment(labels, r, spin)) for r in range(1 << len(labels))]
+            ctype = "plain"
+            classes.add("bigint")
+        else:
+            tab = table_list(terms, labels, spin)
+        scale = float(sum(abs(v) for _, v in terms))
         if ctype != "plain":
             classes.add("ctype=" + ctype)
             terms = [(k, gen.wrap_number(v, ctype)) for k, v in terms]
